@@ -7,6 +7,7 @@ EXTENDS Flow, Json
 CONSTANTS Kind,                      \* "if" | "for" | "each" | "while"
           Ctxs,                      \* rendering contexts: top, mixin, fn
           CondSet, MaxConds,         \* if / while: condition tokens, chain length
+          ElseSet, NCondSet,         \* if: forms of the @else block (0..3), conditions of the @if nested in it
           AVals, BVals, TVals,       \* for: start values, literal end values, end values given in a's unit (converted to ub)
           UnitsA, UnitsB,
           MaxOut,                    \* for: longest emitted sequence
@@ -29,13 +30,14 @@ Init == inp = [kind |-> "none"] /\ phase = "start"
 
 (* ---- @if --------------------------------------------------------------- *)
 IfStart == /\ Kind = "if" /\ phase = "start"
-           /\ \E c \in Ctxs : inp' = [kind |-> "if", ctx |-> c, conds |-> <<>>, else |-> 0]
+           /\ \E c \in Ctxs : inp' = [kind |-> "if", ctx |-> c, conds |-> <<>>, else |-> 0, ncond |-> "-"]
            /\ phase' = "build"
 IfAdd == /\ Kind = "if" /\ phase = "build" /\ Len(inp.conds) < MaxConds
          /\ \E t \in CondSet : inp' = [inp EXCEPT !.conds = Append(@, t)]
          /\ UNCHANGED phase
 IfFinish == /\ Kind = "if" /\ phase = "build" /\ Len(inp.conds) >= 1
-            /\ \E e \in {0, 1} : inp' = [inp EXCEPT !.else = e]
+            /\ \/ \E e \in ElseSet \cap {0, 1} : inp' = [inp EXCEPT !.else = e]
+               \/ \E e \in ElseSet \cap {2, 3}, nc \in NCondSet : inp' = [inp EXCEPT !.else = e, !.ncond = nc]
             /\ phase' = "done"
 
 (* ---- @while ------------------------------------------------------------ *)
